@@ -501,6 +501,26 @@ Proof.
 Qed.
 Print Assumptions C20_qualify_references_closed_order_independent.
 
+(* the reference to a table of the realm is qualified exactly when the table's block is, and the
+   keys of byRef are pairwise distinct -- for the fixed QualifyObjects *)
+Theorem C20_qualify_references_closed_match_blocks : forall specs bl target,
+  map_order bl (byLabel specs) -> In target specs ->
+  (qualifiedP specs target ->
+     QualifyReferences_ref (QualifyObjects_closed_over bl specs) target = RefQualified (q_schema target) (q_label target)) /\
+  (~ qualifiedP specs target ->
+     QualifyReferences_ref (QualifyObjects_closed_over bl specs) target = RefPlain (q_label target)).
+Proof. exact QualifyReferences_closed_ref_spec. Qed.
+Print Assumptions C20_qualify_references_closed_match_blocks.
+Theorem C20_qualify_references_closed_no_duplicate : forall specs bl,
+  map_order bl (byLabel specs) -> NoDup specs ->
+  NoDup (map byRef_key (QualifyObjects_closed_over bl specs)).
+Proof. exact QualifyReferences_closed_no_duplicate. Qed.
+Print Assumptions C20_qualify_references_closed_no_duplicate.
+Example C20_qualify_references_closed_ex :
+  map (QualifyReferences_ref (QualifyObjects_closed_go [QO 1 10; QO 2 1; QO 2 2; QO 3 10])) [QO 2 1; QO 2 2; QO 3 10]
+  = [RefQualified 2 1; RefQualified 2 2; RefQualified 3 10].
+Proof. vm_compute. reflexivity. Qed.
+
 (* "No block written with one label carries a name that another block uses as its qualifier":
    true of the fixed code (it was refuted for the code before the fix, below). *)
 Theorem C20_qualify_unambiguous : forall specs bl, map_order bl (byLabel specs) ->
